@@ -178,7 +178,12 @@ def tagcfg_st(draw, p_none=0.4):
         return {}
     if draw(st.integers(0, 3)) == 0:
         return {"tagx": draw(tagx_v1_st()), "dialect": "v1", "rv": draw(st.integers(0, 3))}
-    return {"tagx": draw(tagx_v2_st()), "dialect": "v2", "rv": draw(st.integers(0, 7))}
+    cfg = {"tagx": draw(tagx_v2_st()), "dialect": "v2", "rv": draw(st.sampled_from(list(range(8)) + [16, 32, 33, 36]))}
+    if draw(st.integers(0, 2)) == 0:
+        cfg["tagform"] = "terms"        # several --tags options
+        if cfg["tagx"][0] != "and" and draw(st.booleans()):
+            cfg["tagx"] = ["and", cfg["tagx"], draw(tagx_v2_st(max_leaves=2))]
+    return cfg
 
 
 @st.composite
